@@ -340,6 +340,9 @@ func (n *WorkflowNode) checkAndAddMappedPath(paths []FieldPath) error {
 		if _, ok = v.(struct{}); ok {
 			return fmt.Errorf("entire output has already been mapped for node: %s", n.key)
 		}
+		if len(paths) == 0 {
+			return fmt.Errorf("some fields have already been mapped for node: %s, cannot map the entire input", n.key)
+		}
 	} else {
 		if len(paths) == 0 {
 			n.mappedFieldPath[""] = struct{}{}
@@ -358,6 +361,11 @@ func (n *WorkflowNode) checkAndAddMappedPath(paths []FieldPath) error {
 				if _, ok = v.(struct{}); ok {
 					return fmt.Errorf("two terminal field paths conflict for node %s: %v, %v", n.key, traversed, targetPath)
 				}
+				if i == len(targetPath)-1 {
+					return fmt.Errorf("field path %v of node %s is a prefix of an already mapped path", targetPath, n.key)
+				}
+				m = v.(map[string]any)
+				continue
 			}
 
 			if i < len(targetPath)-1 {
